@@ -1117,10 +1117,9 @@ fn specs_for(prop: &'static str, tier: Tier) -> Vec<SpecImpl> {
             // pause / resume must not hand anything to a saturated worker
             v.push(mk(cfg(2, &[Uds], 1), Bounds { connects: 3, cmds: vec![Ev::Pause, Ev::Resume], max_cmds: 2, ..Default::default() }));
             // three workers, one of the lower ones is replaced: rotation and availability of the others
-            v.push(mk(cfg(3, &[Uds], 1), Bounds { connects: 4, kills: 1, ..Default::default() }));
+            v.push(mk(cfg(3, &[Uds], 1), Bounds { connects: if q { 3 } else { 4 }, kills: 1, ..Default::default() }));
             v.push(mk(cfg(3, &[Uds], 4), Bounds { connects: 4, kills: 1, completes: false, ..Default::default() }));
             if !q {
-                v.push(mk(cfg(3, &[Uds], 1), Bounds { connects: 4, kills: 1, ..Default::default() }));
                 v.push(mk(cfg(2, &[Uds], 2), Bounds { connects: 5, kills: 1, ..Default::default() }));
             }
         }
@@ -1158,7 +1157,7 @@ fn specs_for(prop: &'static str, tier: Tier) -> Vec<SpecImpl> {
             let stops = vec![Ev::Stop(true), Ev::Stop(false)];
             if q {
                 v.push(mk(cfg(1, &[Uds], 2), Bounds { connects: 2, cmds: stops.clone(), max_cmds: 2, advances: vec![1000], max_advances: 4, drop_stop: true, ..Default::default() }));
-                v.push(mk(cfg(2, &[Uds], 1), Bounds { connects: 2, cmds: vec![Ev::Stop(true), Ev::Signal(2), Ev::Signal(15)], max_cmds: 1, advances: vec![1000], max_advances: 4, ..Default::default() }));
+                v.push(mk(cfg(2, &[Uds], 1), Bounds { connects: 2, cmds: vec![Ev::Stop(true), Ev::Signal(2), Ev::Signal(15)], max_cmds: 1, advances: vec![1000], max_advances: 3, ..Default::default() }));
                 // the accept loop exits (closing the workers' channels) before the workers are told to stop
                 v.push(mk(cfg(1, &[Uds], 2), Bounds { connects: 1, cmds: vec![Ev::Stop(true)], max_cmds: 1, advances: vec![1000], max_advances: 3, nested: 2, ..Default::default() }));
                 // the worker is told to stop while the accept thread has sent a connection but not counted it yet
@@ -1180,6 +1179,8 @@ fn specs_for(prop: &'static str, tier: Tier) -> Vec<SpecImpl> {
                 v.push(mk(cfg(2, &[Uds], 2), Bounds { connects: 3, cmds: all.clone(), max_cmds: 2, advances: vec![1000], max_advances: 4, drop_stop: true, ..Default::default() }));
                 v.push(mk(Config { shutdown_timeout_s: 1, ..cfg(2, &[Uds], 1) }, Bounds { connects: 3, cmds: stops.clone(), max_cmds: 2, advances: vec![500, 1000], max_advances: 4, nested: 1, ..Default::default() }));
                 v.push(mk(cfg(1, &[Tcp], 2), Bounds { connects: 3, cmds: all, max_cmds: 2, advances: vec![1000], max_advances: 4, ..Default::default() }));
+                // the quick configuration with signals, one clock step further
+                v.push(mk(cfg(2, &[Uds], 1), Bounds { connects: 2, cmds: vec![Ev::Stop(true), Ev::Signal(2), Ev::Signal(15)], max_cmds: 1, advances: vec![1000], max_advances: 4, ..Default::default() }));
             }
         }
         "C07" => {
